@@ -34,6 +34,29 @@ def touched():
     return d
 
 
+SIBLINGS = {"C01": ["C06", "C12"], "C02": ["C11"], "C03": ["C12"], "C04": ["C05", "C10"], "C05": ["C19", "C04", "C10"], "C06": ["C01", "C11"], "C07": ["C19"],
+            "C08": ["C05"], "C10": ["C04", "C05"], "C11": ["C02", "C06", "C13"], "C12": ["C01", "C03"], "C13": ["C11", "C14"], "C14": ["C13"], "C17": ["C06"],
+            "C19": ["C05", "C07"]}
+
+
+def slugs():
+    d = collections.defaultdict(list)
+    for f in sorted(glob.glob(os.path.join(VERIF, "seeded/*/meta.json"))):
+        try:
+            m = json.load(open(f))
+        except Exception:
+            continue
+        files = set()
+        try:
+            for l in open(f.replace("meta.json", "patch.diff"), errors="replace"):
+                if l.startswith("+++ "):
+                    files.add(l.split()[1].replace("b/", "", 1))
+        except Exception:
+            pass
+        d[m["property"]].append("%s (%s)" % (m["id"].split("-", 1)[1].replace("-", " "), ", ".join(sorted(files))))
+    return d
+
+
 def main():
     rd = sys.argv[1]
     rnd = int(sys.argv[2])
@@ -90,6 +113,13 @@ Check the "without" case by reverting with `git apply -R SEEDED/patch.diff`, reb
                        "so choose a different mechanism (a different function, object kind, path or configuration):\n\n")
             for t in sorted(T[pid]):
                 txt.append("* `%s`\n" % t)
+        SL = slugs()
+        rel = [pid] + SIBLINGS.get(pid, [])
+        txt.append("\nOne-line summaries of all earlier changes for this property and for the neighbouring properties that share its code (do not repeat any of them, "
+                   "not even with a different edit that has the same effect):\n\n")
+        for q in rel:
+            for sl in SL.get(q, []):
+                txt.append("* %s: %s\n" % (q, sl))
         txt.append("\nFinish by replying with: the one-paragraph description of the change, the test-suite totals, and the demo exit codes with and without the change.\n")
         open(os.path.join(wt, "BRIEF.md"), "w").write("\n".join(txt))
         print("wrote", os.path.join(wt, "BRIEF.md"))
